@@ -1250,4 +1250,13 @@ theorem abs_peek (a : Arr) (xs : List Val) (h : a.Abs xs) :
 theorem abs_clear_seq (a : Arr) (xs : List Val) (h : a.Abs xs) : (a.clear).2 = .ok ∧ (a.clear).1.Abs [] :=
   ⟨rfl, Arr.clear_abs h⟩
 
+/-- **array/join**: on arrays / tuples (an array passed to itself included) it appends every part in order, exactly as
+array/concat; a part that is not indexed raises the error -/
+theorem abs_join (ps : List SPart) (hno : ∀ p ∈ ps, ∀ v, p ≠ SPart.one v) (a : Arr) (xs : List Val) (h : a.Abs xs)
+    (hb : ((specConcat xs ps).length : Int) ≤ i32max) :
+    (a.join (ps.map SPart.toPart)).2 = .ok ∧ (a.join (ps.map SPart.toPart)).1.Abs (specConcat xs ps) :=
+  Arr.join_abs ps hno h hb
+
+theorem ajoin_not_indexed_err (a : Arr) (v : Val) (ps : List Part) : a.join (.one v :: ps) = (a, .err) := Arr.join_err a v ps
+
 end JanetModel.Props.C04
